@@ -17,6 +17,7 @@ import ast
 from sa import core
 from sa import fieldtypes
 from sa import pat
+from sa import rules_qn
 from sa import pycfg
 from sa import tpl
 
@@ -25,6 +26,7 @@ AU = 'malt/pyct/ast_util.py'
 PARSER = 'malt/pyct/parser.py'
 LOADER = 'malt/pyct/loader.py'
 API = 'malt/impl/api.py'
+TRANSPILER = 'malt/pyct/transpiler.py'
 QN = 'malt/pyct/qual_names.py'
 
 
@@ -35,7 +37,9 @@ def check(model, rep, tier):
   rep.rule('TREE-CTOR', 'AST constructions well formed per ASDL', floor=45)
   rep.rule('TREE-COPY', 'replacements are clean copies; copier rebuilds', floor=8)
   rep.rule('TREE-CTX', 'context adjustment and restoration', floor=5)
-  rep.rule('TREE-TEXT', 'text loaded = text mapped = text shown', floor=4)
+  rep.rule('TREE-TEXT', 'text loaded = text mapped = text shown', floor=9)
+  rep.rule('TREE-LITERAL', 'literal parts of qualified names are parser-produced '
+           'constants (they are printed back as ast.Constant)', floor=1)
 
   # ---------------------------------------------------------------- TREE-CTOR
   n = 0
@@ -328,6 +332,47 @@ def check(model, rep, tier):
             'return the source of the function to_graph loaded',
             {'forwarded': passed if tg else None, 'params': ps}, line=tc.node.lineno,
             witness='to_code(f, experimental_optional_features=Feature.LISTS)')
+
+  rules_qn.literal(model, rep, 'TREE-LITERAL')
+
+  # the function to_code prints is the loaded one only while it has no
+  # __wrapped__ attribute (inspect.getsource unwraps)
+  chain = [model.func(API, 'to_graph'), model.func(API, '_convert_actual'),
+           model.func(API, 'autograph_artifact'),
+           model.func(TRANSPILER, 'PyToPy.transform_function'),
+           model.func(TRANSPILER, '_PythonFnFactory.instantiate')]
+  for fi in chain:
+    bad = []
+    for x in core.walk_no_nested(fi.node):
+      if isinstance(x, ast.Attribute) and x.attr == '__wrapped__' and isinstance(
+          x.ctx, ast.Store):
+        bad.append(core.norm(x))
+      if isinstance(x, ast.Call):
+        d = core.dotted(x.func) or ''
+        if d in ('functools.wraps', 'functools.update_wrapper'):
+          bad.append(d)
+        # generic attribute copies: __dict__.update(...), vars(f).update(...),
+        # setattr with a computed name
+        if isinstance(x.func, ast.Attribute) and x.func.attr == 'update' and (
+            (isinstance(x.func.value, ast.Attribute) and x.func.value.attr == '__dict__')
+            or (isinstance(x.func.value, ast.Call) and core.dotted(
+                x.func.value.func) == 'vars')):
+          bad.append(core.norm(x)[:70])
+        if d == 'setattr' and len(x.args) >= 2 and not isinstance(x.args[1], ast.Constant):
+          bad.append(core.norm(x)[:70])
+        if d == 'setattr' and len(x.args) >= 2 and isinstance(x.args[1], ast.Constant) \
+            and x.args[1].value == '__wrapped__':
+          bad.append(core.norm(x)[:70])
+      if isinstance(x, ast.Assign) and any(
+          isinstance(t, ast.Attribute) and t.attr == '__dict__' for t in x.targets):
+        bad.append(core.norm(x)[:70])
+    rep.check(not bad, 'TREE-TEXT', '%s:loaded-function-gets-no-__wrapped__' % fi.site,
+              'the function object returned by to_graph must not acquire '
+              '__wrapped__ (explicitly, through functools.wraps, or by copying '
+              'the attributes of the original wholesale): to_code prints '
+              'inspect.getsource(to_graph(f)), which follows __wrapped__ back to '
+              'the unconverted source', {'constructs': bad}, line=fi.node.lineno,
+              witness='to_code of a function decorated with functools.wraps')
 
 
 def _enclosing(m, node):
